@@ -6,6 +6,7 @@ package main
 // Everything here runs twice: symbolically under symgo and natively for replay/validation.
 
 import (
+	"bufio"
 	"strconv"
 	"strings"
 
@@ -311,3 +312,39 @@ func (t *vTrans) GetProtocol() string                                 { return t
 func (t *vTrans) GetAddress() string                                  { return t.addr }
 func (t *vTrans) GetPort() int                                        { return t.port }
 func (t *vTrans) IsExit() bool                                        { return false }
+
+// ---------------------------------------------------------------- message text helpers
+
+// parseText runs the repository's decoder on message text.
+func parseText(text string) (*Message, error) {
+	return ParseMessage(bufio.NewReader(strings.NewReader(text)))
+}
+
+// spell returns one spelling of a known header name: 0 canonical, 1 compact (if any), 2 upper, 3 lower.
+func spell(name string, k int) string {
+	switch k {
+	case 1:
+		switch name {
+		case "Via":
+			return "v"
+		case "From":
+			return "f"
+		case "To":
+			return "t"
+		case "Call-ID":
+			return "i"
+		case "Content-Length":
+			return "l"
+		case "Contact":
+			return "m"
+		case "Content-Type":
+			return "c"
+		}
+		return name
+	case 2:
+		return strings.ToUpper(name)
+	case 3:
+		return strings.ToLower(name)
+	}
+	return name
+}
